@@ -204,6 +204,7 @@ class Storage(Machine):
                 if not chosen:
                     chosen = [s.choice(names)]
                 ops.append({"kind": "boot", "i": i, "envs": chosen, "dir": s.choice(["outA", "outA", "outB"]),
+                            "dirty": s.choice(self.DIRTY_VARIANTS),
                             "addr": s.choice([0x0E1ED000, 0x0, 0x10000 - 1024, 0x0FFF0000]), "kconfig": k, "soc": soc,
                             "entry": "lib" if soc == "nrf9280" else s.choice(["cli", "cli", "lib"])})
         return {"seed": seed, "swarm": swarm, "ops": ops, "faults": []}
@@ -545,6 +546,10 @@ class Storage(Machine):
                 if extra:
                     vs.append(violation("C07", "only-slot-data", op["i"],
                                         f"{fname} holds {len(extra)} bytes outside the expected slots, first at {extra[0]:#x}"))
+        if not vs and prop == "C07":
+            outs = [f"{out_dir}/{DOMAIN_FILES[d]}" for d in by_domain]
+            vs = self.dirty_rerun(host, model, prop, op, outs, lambda: run_once(()), "only-slot-data")
+            model["boots_in_interp"] += 1 if op.get("dirty") else 0
         return vs
 
     def _check_slot(self, prop, op_i, got, stored, cid, role, name, size):
